@@ -208,17 +208,47 @@ def case_mem2_overflow_float(ctx, N):
     ctx.check(not bad, "D-M2.overflow.float", info=dict(failing_multipliers=bad))
 
 
-def case_mem_closed_form(ctx, N):
+def _mem_shape_witness(ctx, M1, th, N, vector, mom):
+    """concrete moments through the same code (everything constant-folds): D_j |1 - Phi1 e^-it_j - Phi2 e^-2it_j|^2 is
+    the same for every direction, with Phi from L&K eq. 13 - decides at once what the symbolic shape claim can only
+    refute slowly when the formula is wrong"""
+    a1, b1, a2, b2 = (ctx.frac(*q) for q in mom)
+    thc = ctx.const(th) if ctx.mode == "sym" else th
+    if vector:
+        arr = lambda v: np.array([v], dtype=object if ctx.mode == "sym" else float)
+        D = M1._mem(thc, arr(a1), arr(b1), arr(a2), arr(b2))
+    else:
+        D = M1.numba_mem(thc, a1, b1, a2, b2)
+    D = [ctx.value(x) if ctx.mode == "sym" else float(x) for x in np.asarray(D).reshape(-1)]
+    fa1, fb1, fa2, fb2 = (float(Fraction(*q)) for q in mom)
+    c1, c2 = complex(fa1, fb1), complex(fa2, fb2)
+    phi1 = (c1 - c2 * c1.conjugate()) / (1 - abs(c1) ** 2)
+    phi2 = c2 - phi1 * c1
+    Q = [abs(1 - phi1 * np.exp(-1j * t) - phi2 * np.exp(-2j * t)) ** 2 for t in th]
+    ctx.reach("D-M1.shape")
+    for j in range(1, N):
+        ctx.check(ctx.close(D[j] * ctx.const(Q[j]), D[0] * ctx.const(Q[0]), rtol=1e-7), "D-M1.shape",
+                  info=dict(j=j, moments=[fa1, fb1, fa2, fb2]))
+
+
+def case_mem_closed_form(ctx, N, vector=False, witness=None):
     """MEM (Lygre & Krogstad): discrete normalisation gives sum D 2pi/N == 1 and D >= 0 wherever no denominator
     vanishes; and the solver is asked whether a denominator CAN vanish on a grid direction for moments in the disc"""
     M2, M1 = _m2(ctx)
     th, tw, inc = _grid(ctx, N)
+    if witness is not None:
+        return _mem_shape_witness(ctx, M1, th, N, vector, witness)
     a1, b1, a2, b2 = (ctx.real(n) for n in ("a1", "b1", "a2", "b2"))
     ctx.assume(ctx.lt(a1 * a1 + b1 * b1, 1))
     thc = ctx.const(th)
     ctx.reach("D-M1")       # before the sqrt atoms of |.|^2 enter the solver
-    D = M1.numba_mem(thc, a1, b1, a2, b2)
-    D = [ctx.value(x) for x in D]      # claims are about the values wherever the closed form is defined
+    if vector:
+        # the vectorised implementation behind the public `mem` estimator (one frequency)
+        arr = lambda v: np.array([v], dtype=object if ctx.mode == "sym" else float)
+        D = M1._mem(thc, arr(a1), arr(b1), arr(a2), arr(b2))
+    else:
+        D = M1.numba_mem(thc, a1, b1, a2, b2)
+    D = [ctx.value(x) for x in np.asarray(D).reshape(-1)]   # claims are about the values wherever the closed form is defined
     tot = 0
     for j in range(N):
         tot = tot + D[j]
@@ -245,6 +275,28 @@ def case_mem_closed_form(ctx, N):
                 ctx.check(ctx.implies(ctx.Or(pos, neg), ctx.And(*[ctx.le(0, D[j]) for j in range(N)])), "D-M1.nonneg",
                           abstract=nums + [den], lemmas=[ctx.eq(den, isum * np.pi * 2.0 / N)],
                           info="non-negative after normalisation")
+            # shape: the unnormalised density is proportional to 1 / |1 - Phi1 e^{-i theta} - Phi2 e^{-2 i theta}|^2 with
+            # the Yule-Walker coefficients of Lygre & Krogstad (eq. 13): Phi1 = (c1 - c2 conj(c1)) / (1 - |c1|^2),
+            # Phi2 = c2 - c1 Phi1 - computed here from the definition, independently of the code
+            c1, c2 = SC(a1, b1), SC(a2, b2)
+            one = SC(SR(Fraction(1)), SR(Fraction(0)))
+            phi1 = (c1 - c2 * c1.conjugate()) / (one - c1 * c1.conjugate())
+            phi2 = c2 - phi1 * c1
+            Q = []
+            for j in range(N):
+                e1 = SC(ctx.const(math.cos(th[j])), ctx.const(-math.sin(th[j])))
+                e2 = SC(ctx.const(math.cos(2 * th[j])), ctx.const(-math.sin(2 * th[j])))
+                z = one - phi1 * e1 - phi2 * e2
+                Q.append(z.re * z.re + z.im * z.im)
+            # the code forms |z_j|^2 as abs(z_j)**2: the arguments of its square roots (in order of creation) are the
+            # squared moduli it divides by
+            roots = [v for k_, v in ctx._uf_terms.items() if k_[0] == "sqrt"]
+            ctx.check(len(roots) == N, "D-M1.shape", info=dict(square_roots=len(roots), expected=N))
+            if len(roots) == N:
+                for j in range(N):
+                    ctx.check(ctx.close(SR(roots[j][1]), Q[j], rtol=1e-9), "D-M1.shape", timeout=30000,
+                              info=dict(j=j, what="|1 - Phi1 e^-it - Phi2 e^-2it|^2 with the Yule-Walker coefficients "
+                                                  "of L&K eq. 13"))
     else:
         ctx.check(ctx.close(tot * (2 * np.pi / N), 1), "D-M1.unit")
 
@@ -419,11 +471,15 @@ def cases(tier):
         add("case_mem2_distribution", f"mem2_dist_N{N}", N=N, opts=dict(weight=N * 10))
         for k in ("nan", "approximate"):
             add("case_mem2_solver_exits", f"mem2_exit_{k}_N{N}", N=N, exit_kind=k)
-    add("case_mem2_solver_exits", "mem2_exit_general_N3", N=3, exit_kind="general", opts=dict(weight=80, case_timeout_s=280))
+    add("case_mem2_solver_exits", "mem2_exit_general_N3", N=3, exit_kind="general", opts=dict(weight=80, case_timeout_s=900))
     if not q:
         add("case_mem2_solver_exits", "mem2_exit_general_N4", N=4, exit_kind="general",
             opts=dict(weight=200, case_timeout_s=1500))
     add("case_mem_closed_form", "mem_closed_N4", N=4, opts=dict(weight=50))
+    add("case_mem_closed_form", "mem_closed_vector_N4", N=4, vector=True, opts=dict(weight=50))
+    for vec in (False, True):
+        add("case_mem_closed_form", f"mem_shape_witness_{'vector' if vec else 'numba'}_N6", N=6, vector=vec,
+            witness=[(3, 10), (1, 5), (1, 10), (-1, 10)], opts=dict(fold_sqrt=True, validate=0))
     add("case_mem2_overflow_float", "mem2_overflow_float_N36", N=36, opts=dict(concrete_float=True, label="D-M2.overflow.float"))
     add("case_direction_count_float", "ndir_float_mem", method="mem", solution_method="scipy",
         opts=dict(concrete_float=True, label="D-NDIR.float"))
